@@ -60,6 +60,15 @@ func (s *Session) EnsureValid() error {
 		return fmt.Errorf("invalid beta-specific configuration: %w", err)
 	}
 
+	// Ensure that the merged endpoint configurations are valid. This is
+	// necessary because endpoint-specific configurations are validated without
+	// knowledge of session-wide settings that affect their interpretation.
+	if err := MergeConfigurations(s.Configuration, s.ConfigurationAlpha).EnsureValid(false); err != nil {
+		return fmt.Errorf("invalid effective alpha configuration: %w", err)
+	} else if err = MergeConfigurations(s.Configuration, s.ConfigurationBeta).EnsureValid(false); err != nil {
+		return fmt.Errorf("invalid effective beta configuration: %w", err)
+	}
+
 	// Validate the session name.
 	if err := selection.EnsureNameValid(s.Name); err != nil {
 		return fmt.Errorf("invalid session name: %w", err)
